@@ -938,7 +938,7 @@ func c11Search(c *Ctx, ci int, k c11Cfg, user string, rot bool, maxDepth int) {
 				case canon2:
 					canon, layout = canon2, layout2
 				default:
-					c.Error("the same history reached three different states: %s", mk(ops, c11Out{}))
+					c.Unstable("the same history reached three different states: %s", mk(ops, c11Out{}))
 					continue
 				}
 			}
@@ -974,7 +974,7 @@ func c11Search(c *Ctx, ci int, k c11Cfg, user string, rot bool, maxDepth int) {
 					continue
 				}
 				if r.Pre != canon {
-					c.Error("replay diverged before the sign-out three times:\n%s\n%s | %s", canon, r.Pre, cs)
+					c.Unstable("replay diverged before the sign-out three times:\n%s\n%s | %s", canon, r.Pre, cs)
 					continue
 				}
 				c11Count(c, ci, cs, r, canon)
